@@ -379,7 +379,7 @@ def _into(s, target):
 
 def mutate(b, rng, t):
     r = rng.random()
-    if r < 0.06 and t.size > 1 and t.name in b.tensors:
+    if r < 0.06 and t.size > 1 and t.name in b.tensors and not getattr(b, "no_setshape", False):
         opts = [sh for sh in progs.SHAPES + [(t.size,)] if int(np.prod(sh, dtype=np.int64)) == t.size and tuple(sh) != tuple(t.shape)]
         if opts:
             return b.setshape(t, rng.choice(opts))
